@@ -3,6 +3,7 @@ import Prs.Driver.Json
 import Prs.Model.Stats2
 import Prs.Model.Graph
 import Prs.Model.Tables
+import Prs.Model.Linkage
 open Lean
 namespace Prs.Drv
 
@@ -171,6 +172,18 @@ def opStats (op : String) (j : Json) : Option (R Json) :=
         | .arr #[a, b] => do pure ((← a.getNat?), (← b.getNat?))
         | _ => throw "edges: [u, v] expected"
       pure (jList jNat (components n edges))
+  | "single_linkage" => some do
+      -- dm: square matrix of distances; with "t": the flat clusters at height t, without: the merge heights
+      let dm ← (← arr j "dm").toList.mapM fun row => match row with
+        | .arr a => a.toList.mapM ratOfJson
+        | _ => throw "dm: rows expected"
+      let n := dm.length
+      let d : Nat → Nat → Rat := fun a b => (dm.getD a []).getD b 0
+      match optField j "t" with
+      | some tv => do
+          let t ← ratOfJson tv
+          pure (jList (jList jNat) (flatSingle d n t))
+      | none => pure (jList jRat (singleHeights d n))
   | "graph_clustering_cc" => some do
       let n ← nat j "n"
       let edges ← (← arr j "edges").toList.mapM fun e => match e with
